@@ -738,6 +738,7 @@ func writeEvidence(d *h.Driver, tier string, seed uint64, runs int, stats map[st
 			"simulated_runs":      runs,
 			"runs_per_hour":       int64(perHour),
 			"kernel_steps":        stats["steps"],
+			"simulated_clock_ns":  stats["clock_span_ns"],
 			"distinct_by_kind":    kinds,
 			"faults_fired":        faults,
 			"counters":            other,
